@@ -123,6 +123,19 @@ CLAIMED["C10"] = (
     "DESIGN.md 3/C10",
 )
 
+CLAIMED["C12"] = (
+    "runtime monitor: generated expression programs with special constants and shared sub-trees built four ways (Context constructors, Tree operators + import, from_text listings, remap_xyz instances) and compared with the independent evaluation of the un-rewritten program under the finiteness premise; dedup, import/export round trips, Tree ==/hash consistency; deep chains/combs/remap nests (1e5..1e6) built, cloned, compared, hashed, imported, exported and dropped on a 256 KiB stack inside child processes (crash monitor); rewrite-rule coverage floors",
+    "Held on every program/node observed; every deep step survived on the small stack. Exploration.",
+    "A node is compared only if every reference value in its cone is finite; nodes whose cone feeds a zero into atan2/rand/mix/recip/div are skipped (sign of zero is excused by the statement).",
+    "DESIGN.md 3/C12",
+)
+CLAIMED["C14"] = (
+    "runtime monitor: single-output functions over subsets of X,Y,Z and up to ~40 free variables; every shape-level entry point (point, interval, bulk float, bulk gradient; plain, with transform, with vars, with var arrays) compared bit-for-bit with the same backend's raw function fed by identity through its own vars() map (transformed inputs from nalgebra or observed through the trivial shapes X,Y,Z), point results also against Context::eval with an explicit Var->value map; missing/extra variables; numbering and value after simplification",
+    "Held on every function/entry point observed. Exploration.",
+    "Programs exclude rand/mix; interval evaluations that panic are left to C11; soundness of the interval transform itself is C03's subject.",
+    "DESIGN.md 3/C14",
+)
+
 NOT_YET = {}
 
 def main():
